@@ -3,7 +3,7 @@ PROPERTY = 'C15'
 LEVEL = 'exploration'
 DEDUCTIVE = ['contracts.c15_coords']
 BUDGET_S = {'quick': 120.0, 'thorough': 300.0}
-MIN_OBLIGATIONS = {'quick': 1200, 'thorough': 1200}
+MIN_OBLIGATIONS = {'quick': 3000, 'thorough': 3000}
 BOUNDED_FLOOR = {'quick': 5000, 'thorough': 20000}
 CONFIG_NOTE = {'quick': "pixel2world_single_axis / world2pixel_single_axis for 1-3 inputs and every requested axis, values point-wise symbolic; CoordinateComponentLink.using for ndim 1-3, every index, every "
                         "non-empty from_needed subset, both directions; CoordinateComponent._calculate for 19 view shapes (slices with steps 1, 2, -1, integers, short tuples, bare slice / integer; ranks 1-3) x world axis, "
@@ -11,13 +11,15 @@ CONFIG_NOTE = {'quick': "pixel2world_single_axis / world2pixel_single_axis for 1
 TRUSTED_BASE = [
     "numpy facts: unbroadcast(a) re-broadcast equals a; broadcast_arrays / broadcast_to / ravel / reshape keep the value at corresponding elements; a.flat[0] is the first element (arrays are represented by their value at an arbitrary element and at the first element)",
     "contract of the coordinate object: component k of the transformation does not depend on inputs its correlation matrix marks as unrelated (instantiated at the shortcut's point and the true point); "
-    "for the inverse the set of needed world axes is the result of _connected_axes, which is under its own contract (proved for every matrix size up to 3x3 / 4x4 with symbolic entries: the least closed set of axes containing the requested one)",
+    "for the inverse the set of needed world axes is the result of _connected_axes, which is under its own contract (proved for every matrix size up to 4x4 / 6x6 with symbolic entries: the least closed set of axes containing the requested one)",
     "_connected_axes contract: numpy facts - zeros(n, bool) is all False; v[list] = True sets those entries; m[:, p].any(axis=1)[w] <=> some j has p[j] and m[w, j]; m[w, :].any(axis=0)[j] <=> some i has w[i] and m[i, j]; "
     "| and == are element-wise; np.all is the conjunction; np.asarray(m, dtype=bool) keeps the truth value of every entry",
     "dependent_axes contract: m[::-1, ::-1][i, j] = m[nw-1-i, np-1-j]; np.nonzero(v)[0] are the indices of the True entries in increasing order; set | set is the union; sorted() gives increasing order; "
     "CPython iterates a set of non-negative integers below 8 in increasing order (so a body without sorted() is not reported); _connected_axes is used through its proved contract (contains the starting axes, closed)",
     "_calculate: np.arange(n) and its indexing are index sequences start + step * position (slice.indices arithmetic); np.meshgrid(indexing='ij') gives grid i the value of input i along axis i; "
     "indexing the converted array with 0 / slice(None) removes / keeps an axis; np.broadcast_to fixes the shape; the world axis is a function of the pixel axes in dependent_axes only (built into the model)",
+    "link construction contracts: the base constructor ComponentLink.__init__ (called through super()) and the class CoordinateComponentLink (called by _set_up_coordinate_component_links) are stubs that record their arguments; "
+    "dependent_axes is used through its contract (any non-empty subset of the axes)",
     "the VC generator (pyvc) and z3 5.1.0",
 ]
 ASSUMPTIONS = [
@@ -33,12 +35,12 @@ def bounded(tier, seed, R):
 
 MANIFEST_ENTRY = {
     "level": "exploration",
-    "technique": "contract-based deductive verification of CoordinateComponent._calculate for integer / slice views (index sequences, symbolic slice arithmetic), of the single-axis shortcuts and of the link's argument placement (pyvc + z3, arrays point-wise); _connected_axes proved with an inductive loop contract (least closed set of axes, termination by a variant) for every matrix size up to 3x3 (4x4 thorough) with symbolic entries; exhaustive evaluation of dependent_axes on all boolean correlation "
+    "technique": "contract-based deductive verification of CoordinateComponent._calculate for integer / slice views (index sequences, symbolic slice arithmetic), of the single-axis shortcuts and of the link's argument placement (pyvc + z3, arrays point-wise); _connected_axes proved with an inductive loop contract (least closed set of axes, termination by a variant) for every matrix size up to 4x4 (6x6 thorough) with symbolic entries; exhaustive evaluation of dependent_axes on all boolean correlation "
                  "matrices up to 3x3 (4x4 thorough); bounded sweep of world attributes and pixel<->world links against the matrix applied to the pixel grid",
     "text": "Proved for views made of integers and slices (steps 1, 2, -1, negative bounds, short tuples): the world attribute at output position q is the world coordinate of the pixel the view selects there "
             "(slice start + step * q; negative integers counted from the end), with the shape of the view. Proved for 1-3 axes: pixel2world_single_axis and world2pixel_single_axis call the transformation once with every axis, each input being the array or its first element, and return the requested component at the "
             "given inputs in the input shape, given that the correlation information is sound; CoordinateComponentLink.using places supplied arguments by from_needed, fills the other axes with the broadcast default world "
-            "coordinate, reverses to (x, y, z) order and asks for axis ndim-1-index. _connected_axes - the search that decides which axes a shortcut may drop - is proved to return exactly the axes connected to the requested ones (contains them, closed under the correlation matrix, inside every closed superset) and to terminate, for symbolic matrices of every size up to 3x3 (4x4 thorough); dependent_axes is proved, against that contract, to hand over the matrix in numpy order on both sides, to start from the pixel and the world axis with the given index and to return the increasing tuple of the axes marked on either side. dependent_axes is also evaluated on every boolean matrix (complete up to the stated size). World attributes, both link directions and the "
+            "coordinate, reverses to (x, y, z) order and asks for axis ndim-1-index. _connected_axes - the search that decides which axes a shortcut may drop - is proved to return exactly the axes connected to the requested ones (contains them, closed under the correlation matrix, inside every closed superset) and to terminate, for symbolic matrices of every size up to 4x4 (6x6 thorough), rectangular ones included; dependent_axes is proved, against that contract, to hand over the matrix in numpy order on both sides, to start from the pixel and the world axis with the given index and to return the increasing tuple of the axes marked on either side. CoordinateComponentLink.__init__ is proved to take as inputs the identifiers at exactly the positions dependent_axes returns (the tuple using() later places arguments by) and Data._set_up_coordinate_component_links to create, per axis, the pixel->world and the world->pixel link with the right identifiers, index and direction on the dataset's coordinate object. dependent_axes is also evaluated on every boolean matrix (complete up to the stated size). World attributes, both link directions and the "
             "inverse are swept over an affine catalogue (diagonal, coupled, triangular, all permutations, rotations, block, chain), identity and WCS coordinates x a view catalogue.",
     "note": "Level is exploration: the end-to-end statement depends on numpy code (matmul, meshgrid, indexing) that is only swept.",
 }
